@@ -141,7 +141,7 @@ pub fn check(s: &'static dyn Proto, c: &Case, st: &mut Stats, known: &KnownFindi
 
 pub const BUDGET: Budget = Budget {
     quick: (16, 16, 10),
-    thorough: (60, 60, 40),
+    thorough: (240, 240, 160),
     shrink: 4,
 };
 
